@@ -67,8 +67,8 @@ func (p *Parser) parseNext() error {
 
 	c := p.data[p.pos]
 
-	// Check for potential operator (starts with letter)
-	if isLetter(c) {
+	// Check for potential operator (starts with letter; ' and " are operators too)
+	if isLetter(c) || c == '\'' || c == '"' {
 		return p.parseOperator()
 	}
 
@@ -91,7 +91,7 @@ func (p *Parser) parseOperator() error {
 	var op bytes.Buffer
 	for p.pos < len(p.data) {
 		c := p.data[p.pos]
-		if isLetter(c) || c == '\'' || c == '"' || c == '*' {
+		if isLetter(c) || c == '\'' || c == '"' || c == '*' || (op.Len() > 0 && c >= '0' && c <= '9') {
 			op.WriteByte(c)
 			p.pos++
 		} else {
